@@ -19,7 +19,7 @@ RULE = (
     "reports: NamedQubit.resolve_qubit(); fill_in_map(fill_in_let(c)) (rewrites to the fundamental register's "
     "qubit idx and leaves the meaning unchanged); get_used_qubit_indices; the pyGSTi label; and the emulator - "
     "`prepare_all; X ref; measure_all` puts probability 1 on integer 1 << idx (up to 8 sampled references per case, "
-    "register size <= 8).  two-level: ALL chains register(n) -> slice -> slice -> index for n <= 4 (quick) / n <= 7 "
+    "register size <= 8); every register and alias reports the reference size and rejects the index equal to it.  two-level: ALL chains register(n) -> slice -> slice -> index for n <= 4 (quick) / n <= 7 "
     "(thorough) are enumerated exhaustively for resolve_qubit, fill_in_map and used-qubits.  Non-trivial = chain "
     "depth >= 2 or step >= 2 or start >= 1. distinct = program text."
 )
@@ -107,6 +107,17 @@ def chains(case):
     if st_ == "err":
         raise Violation("rejected-valid-program", f"{c}\n--- program:\n{text}")
     label = pygsti_label()
+    # every register-like object reports the reference size
+    st_, cf = guard(fill_in_let, c, what="fill_in_let")
+    if st_ == "ok":
+        for nm, el in reglike:
+            robj = cf.registers[nm]
+            st_, sz = guard(lambda r=robj: int(r.size), what="Register.size")
+            if st_ == "err" or sz != len(el):
+                raise Violation("register-size", f"{nm}: size {sz}, reference {len(el)}\n--- program:\n{text}")
+            st_, bad = guard(lambda r=robj, n_=len(el): r[n_].resolve_qubit(), what="index == size")
+            if st_ == "ok":
+                raise Violation("index-equal-to-size-accepted", f"{nm}[{len(el)}] resolves to {bad}\n--- program:\n{text}")
     for s, (a, k) in zip(c.body.statements, refs):
         q = _qubit_of(s)
         st_, rq = guard(q.resolve_qubit, what="resolve_qubit")
@@ -227,6 +238,12 @@ def two_level(case):
         st_, f = guard(fill_in_map, c, what="fill_in_map")
         if st_ == "err":
             raise Violation("fill-in-map-rejected", f"{f}\n--- program:\n{text}", where="two-level")
+        for nm, el in (("a", e1), ("b", e2)):
+            if int(c.registers[nm].size) != len(el):
+                raise Violation("register-size", f"{nm}: size {c.registers[nm].size}, reference {len(el)}\n--- program:\n{text}", where="two-level")
+            st_, bad = guard(lambda r=c.registers[nm], n_=len(el): r[n_].resolve_qubit(), what="index == size")
+            if st_ == "ok":
+                raise Violation("index-equal-to-size-accepted", f"{nm}[{len(el)}] resolves to {bad}\n--- program:\n{text}", where="two-level")
         for i, (s, sf) in enumerate(zip(c.body.statements, f.body.statements)):
             q = _qubit_of(s)
             rq = q.resolve_qubit()
